@@ -509,6 +509,18 @@ class FunctionAnalysis:
             is_gen = any(isinstance(n, (ast.Yield, ast.YieldFrom)) for n in ast.walk(self.node))
             self.obligations.append(Ob("kind:memoised-value-is-not-a-one-shot-iterator", not is_gen,
                                        "lru_cache on a generator: later calls get an exhausted iterator" if is_gen else ""))
+        # escape obligation (checked only where a contract asks for kind 'escape'): a method declared to return a
+        # container must hand out a container of its own (fresh, or a fresh shell around shared members), never a
+        # reference to state kept by the class / object - a caller editing its result would otherwise rewrite the
+        # library's table for every later caller
+        ann = ast.unparse(self.node.returns) if self.node.returns is not None else ""
+        if any(t in ann for t in ("List", "Set", "Dict", "list", "set", "dict")):
+            bad = []
+            for n in ast.walk(self.node):
+                if isinstance(n, ast.Return) and n.value is not None and self.val(n.value) == SHARED:
+                    bad.append(n.lineno)
+            self.obligations.append(Ob("escape:returned-container-is-not-internal-state", not bad,
+                                       f"returns a reference to shared state at line(s) {bad}" if bad else ""))
         known = {k for k, _ in kinds if k not in (None, "?")}
         ok = len(known) <= 1
         self.obligations.append(Ob("kind", ok, "" if ok else f"return kinds differ: {sorted(known)}"))
